@@ -1676,9 +1676,11 @@ struct Found {
 
 fn search(seed: u64, thorough: bool, st: &mut Stats) -> BTreeMap<String, Found> {
     let fonts = load_fonts();
-    let n_bc: u64 = if thorough { 6_000_000 } else { 700_000 };
-    let n_mut: u64 = if thorough { 400_000 } else { 40_000 };
-    let threads = 16u64;
+    let envn = |k: &str, d: u64| std::env::var(k).ok().and_then(|v| v.parse().ok()).unwrap_or(d);
+    let n_bc: u64 = envn("C20_NBC", if thorough { 6_000_000 } else { 700_000 });
+    let n_mut: u64 = envn("C20_NMUT", if thorough { 400_000 } else { 40_000 });
+    let threads = envn("C20_THREADS", 16);
+    let trace = std::env::var("C20_TRACE").is_ok();
     let fonts_ref = &fonts;
     let mut results: Vec<(BTreeMap<String, Found>, BTreeMap<String, u64>)> = vec![];
     std::thread::scope(|sc| {
@@ -1702,13 +1704,16 @@ fn search(seed: u64, thorough: bool, st: &mut Stats) -> BTreeMap<String, Found> 
                     let mut rng = Rng::new(seed ^ i.wrapping_mul(0x9E3779B97F4A7C15) ^ 0xB1);
                     let c = gen_bc_case(&mut rng, i);
                     *counts.entry(format!("bc.place{}", c.place)).or_insert(0) += 1;
+                    if trace {
+                        eprintln!("BC {} {}", i, c.describe());
+                    }
                     if let Err(trap) = c.run() {
                         note(&mut found, &mut counts, i, trap, &|| c.describe(), Some(&c));
                     }
                     i += threads;
                 }
                 // field mutations
-                let mut i = t;
+                let mut i = t + envn("C20_MUT_FROM", 0);
                 while i < n_mut {
                     let mut rng = Rng::new(seed ^ i.wrapping_mul(0x9E3779B97F4A7C15) ^ 0xF0F0);
                     let m = gen_mutation(&mut rng, fonts_ref);
@@ -1723,6 +1728,9 @@ fn search(seed: u64, thorough: bool, st: &mut Stats) -> BTreeMap<String, Found> 
                             continue;
                         }
                         let sel = seed ^ i.wrapping_mul(31) ^ api as u64;
+                        if trace {
+                            eprintln!("MUT {} {} api={} {:?}", i, fonts_ref[m.font].0, API_NAMES[api], m.edits.iter().map(|(w, _, b)| format!("{w}={b:?}")).collect::<Vec<_>>());
+                        }
                         *counts.entry(format!("mut.api.{}", API_NAMES[api])).or_insert(0) += 1;
                         if let Err(trap) = run_api(&bytes, api, sel) {
                             let fname = fonts_ref[m.font].0;
